@@ -114,8 +114,19 @@ def expected (song : Song) (pf : Platform) (root : List Event) : Except SErr (Li
           | .ok again => .ok (all ++ [Tk.loopMark] ++ again)
       | _, _ => .ok all
 
+/-- loop point only outside counted loops: `SEGNO` at bracket depth 0 -/
+def segnoAtDepth0 : Nat → List Event → Bool
+  | _, [] => true
+  | d, e :: es =>
+    if e.kind = .loopStart then segnoAtDepth0 (d + 1) es
+    else if e.kind = .loopEnd then segnoAtDepth0 (d - 1) es
+    else if e.kind = .segno then d == 0 && segnoAtDepth0 d es
+    else segnoAtDepth0 d es
+
 /-- the encodable domain of C02 (decidable, checked by the oracle before it judges) -/
 def inDomain (song : Song) (root : List Event) : Bool :=
+  segnoAtDepth0 0 root &&
+  (song.tracks.all fun (id, t) => id < 16 || t.all fun e => e.kind ≠ .segno) &&
   let tracks := root :: song.tracks.map (·.2)
   tracks.all fun t => t.all fun e =>
     (e.type ≠ ev_NOTE || (decide (0 ≤ e.param) && decide (e.param < (mds_SLR - mds_NOTE : Nat)) && decide (e.on ≥ 1)))
